@@ -10792,6 +10792,51 @@ let holds_C16_return_list pre f post =
         | _ -> true)
   else true
 
+(** val split_switch :
+    dec_mode list -> ((dec_mode list * dec_mode) * dec_mode list) option **)
+
+let rec split_switch = function
+| [] -> None
+| m :: r ->
+  if switches m
+  then Some (([], m), r)
+  else (match split_switch r with
+        | Some p ->
+          let (p0, b) = p in let (a, x) = p0 in Some (((m :: a), x), b)
+        | None -> None)
+
+(** val holds_C16_return_list_any : vt -> func -> vt -> bool **)
+
+let holds_C16_return_list_any pre f post =
+  let t = pre.vterm in
+  let t' = post.vterm in
+  if (&&) (is_alt_b t) (negb (is_alt_b t'))
+  then (match f with
+        | Decrst ms ->
+          (match split_switch ms with
+           | Some p ->
+             let (p0, rest) = p in
+             let (before, m) = p0 in
+             if forallb (fun x -> negb (switches x)) rest
+             then (match foldM decrst_one before t with
+                   | Ok u ->
+                     let l = logical_t t.other.lines in
+                     let l' = logical_t t'.buf.lines in
+                     (match m with
+                      | AltScreenBuffer ->
+                        let (k, o) = curs t.other u.cur_col u.cur_row in
+                        text_upto l l' k o
+                      | SaveCursorAltScreenBuffer ->
+                        let c = saved_of u Primary in
+                        let (k, o) = curs t.other c.sc_col c.sc_row in
+                        text_upto l l' k o
+                      | _ -> true)
+                   | Panic _ -> true)
+             else true
+           | None -> true)
+        | _ -> true)
+  else true
+
 (** val kf1_restorable : term -> bool **)
 
 let kf1_restorable t =
